@@ -118,6 +118,8 @@ func runC04(c *core.Ctx) {
 	c.Rule("R04.2", "stream prefix agreement between writers and readers")
 	c.Rule("R04.3", "one read, two consumers")
 	c.Rule("R04.4", "symlink destinations compared/created modulo FromSlash only")
+	ruleShortSizeIsShort(c, "R04.5")
+	ruleSignedHashesAreComputed(c, "R04.6")
 
 	// ---- R04.1
 	type sib struct {
@@ -413,4 +415,115 @@ func runC04(c *core.Ctx) {
 		})
 	}
 	c.Floor("R04.4", "comparisons of Readlink results", nCmp, 2)
+}
+
+// ruleShortSizeIsShort (R04.5, shared with C08): BlockHash.ShortSize marks a block that is shorter than the
+// block size; full blocks carry 0. Whoever produces a hash - the signer from the bytes it read, the
+// signature reader from the file size - must therefore store a value that is strictly below the block size
+// by construction: the constant 0, a remainder (x % blockSize), or a length that a dominating test found
+// below something. A producer that can store the full block size (ComputeBlockSize of an exact multiple)
+// makes a signature whose last block never matches, and the two producers disagree.
+func ruleShortSizeIsShort(c *core.Ctx, rule string) {
+	c.Rule(rule, "ShortSize is below the block size by construction")
+	n := 0
+	check := func(fn *ssa.Function, at ssa.Instruction, v ssa.Value) {
+		n++
+		ok, why := true, ""
+		for _, vc := range valueCases(v, at) {
+			x := core.StripConv(vc.v)
+			if k, isC := core.ConstInt(x); isC && k == 0 {
+				continue
+			}
+			if bo, isB := x.(*ssa.BinOp); isB && bo.Op == token.REM {
+				continue
+			}
+			// a length found short by a test on the way
+			isLenX := func(y ssa.Value) bool { return sameVal(core.StripConv(y), x) || sameExpr(core.StripConv(y), x) }
+			short := false
+			for _, g := range vc.guards {
+				if relHolds(g, token.LSS, isLenX, anyVal) {
+					short = true
+				}
+			}
+			if short {
+				continue
+			}
+			ok, why = false, core.Describe(vc.v)
+		}
+		c.Check(ok, rule, core.FnName(fn), "value stored to BlockHash.ShortSize", core.InstrPos(at),
+			"0, a remainder, or a length tested to be short", "BlockHash.ShortSize can be set to "+why+", which is not below the block size by construction (not 0, not a remainder, not a length a dominating test found short): a full last block gets a non-zero short size and can never be matched")
+	}
+	for _, fn := range c.P.SrcFuncs() {
+		pk := core.PkgPathOf(fn)
+		if !strings.HasSuffix(pk, "/wsync") && !strings.HasSuffix(pk, "/pwr") {
+			continue
+		}
+		core.Instrs(fn, func(in ssa.Instruction) {
+			st, ok := in.(*ssa.Store)
+			if !ok {
+				return
+			}
+			b, name, ok := core.FieldOf(st.Addr)
+			if !ok || name != "ShortSize" || core.TypeName(b.Type()) != "wsync.BlockHash" {
+				return
+			}
+			check(fn, in, st.Val)
+		})
+	}
+	c.Floor(rule, "assignments to BlockHash.ShortSize", n, 2)
+}
+
+// ruleSignedHashesAreComputed (R04.6): whatever is handed to a signature writer (a wsync.SignatureWriter
+// value) is a BlockHash whose strong hash was computed by the hashing context (uniqueHash / HashBlock) - never
+// a literal made up on the side. Both producers of a signature must give the same hashes, also for the
+// empty block of an empty file.
+func ruleSignedHashesAreComputed(c *core.Ctx, rule string) {
+	c.Rule(rule, "hashes handed to a signature writer are computed")
+	n := 0
+	for _, fn := range c.P.SrcFuncs() {
+		pk := core.PkgPathOf(fn)
+		if !strings.HasSuffix(pk, "/wsync") && !strings.HasSuffix(pk, "/pwr") {
+			continue
+		}
+		core.Instrs(fn, func(in ssa.Instruction) {
+			cl, ok := in.(*ssa.Call)
+			if !ok || cl.Call.IsInvoke() || cl.Call.StaticCallee() != nil || len(cl.Call.Args) != 1 {
+				return
+			}
+			if core.TypeName(cl.Call.Value.Type()) != "wsync.SignatureWriter" {
+				return
+			}
+			n++
+			okHash := false
+			for _, o := range core.Origins(cl.Call.Args[0]) {
+				if ld, ok := o.(*ssa.UnOp); ok && ld.Op == token.MUL {
+					o = ld.X
+				}
+				a, ok := o.(*ssa.Alloc)
+				if !ok {
+					continue
+				}
+				if v, ok := litField(a, "StrongHash"); ok {
+					for _, h := range core.Origins(v) {
+						var hc *ssa.Call
+						switch x := h.(type) {
+						case *ssa.Call:
+							hc = x
+						case *ssa.Extract:
+							hc, _ = x.Tuple.(*ssa.Call)
+						}
+						if hc != nil {
+							nm := core.CalleeName(hc)
+							if strings.HasSuffix(nm, ".uniqueHash") || strings.HasSuffix(nm, ".HashBlock") {
+								okHash = true
+							}
+						}
+					}
+				}
+			}
+			c.Check(okHash, rule, core.FnName(fn), "signature writer is handed a computed hash", core.InstrPos(in),
+				"the BlockHash's StrongHash comes from uniqueHash / HashBlock", "a BlockHash whose strong hash was not computed by the hashing context is written to a signature (a literal made up on the side): the signature written while diffing differs from the one computed directly")
+		})
+	}
+	c.Floor(rule, "calls of a signature writer", n, 1)
 }
